@@ -12,7 +12,6 @@ for _v in ("OPENBLAS_NUM_THREADS", "OMP_NUM_THREADS", "MKL_NUM_THREADS"):
     os.environ.setdefault(_v, "1")
 
 import json                     # noqa: E402
-import math                     # noqa: E402
 import multiprocessing as mp    # noqa: E402
 import sys                      # noqa: E402
 
